@@ -222,20 +222,15 @@ func shortPkg(path string) string {
 }
 
 // QualName gives a stable, position-free name: "<pkg-rel-path>.<RelString>",
-// e.g. "syncer.(*NativeIterator).Merge", "syncer.(*Syncer).LoadOnce$1".
+// e.g. "syncer.(*NativeIterator).Merge", "syncer.(*Syncer).LoadOnce$update".
 // Generic instantiations are named after their origin.
 func QualName(fn *ssa.Function) string {
 	if fn.Parent() != nil {
-		// anonymous function: parent name + $index
+		// anonymous function: parent name + $role, the role being how the parent
+		// uses the closure (stable when other closures are added or removed);
+		// falls back to the positional index
 		parent := fn.Parent()
-		idx := 0
-		for i, af := range parent.AnonFuncs {
-			if af == fn {
-				idx = i + 1
-				break
-			}
-		}
-		return fmt.Sprintf("%s$%d", QualName(parent), idx)
+		return QualName(parent) + "$" + anonRole(parent, fn)
 	}
 	f := fn
 	if o := fn.Origin(); o != nil {
@@ -337,4 +332,113 @@ func (p *Program) RepoFuncs() []*ssa.Function {
 	}
 	sort.Slice(out, func(i, j int) bool { return QualName(out[i]) < QualName(out[j]) })
 	return out
+}
+
+var anonRoleCache = map[*ssa.Function]string{}
+
+// anonRole names an anonymous function by its use in the parent.
+func anonRole(parent, fn *ssa.Function) string {
+	if r, ok := anonRoleCache[fn]; ok {
+		return r
+	}
+	roles := map[*ssa.Function]string{}
+	count := map[string]int{}
+	assign := func(f *ssa.Function, base string) {
+		if _, done := roles[f]; done {
+			return
+		}
+		count[base]++
+		if count[base] == 1 {
+			roles[f] = base
+		} else {
+			roles[f] = fmt.Sprintf("%s%d", base, count[base])
+		}
+	}
+	closureOf := func(v ssa.Value) *ssa.Function {
+		for {
+			if ct, ok := v.(*ssa.ChangeType); ok {
+				v = ct.X
+				continue
+			}
+			if mi, ok := v.(*ssa.MakeInterface); ok {
+				v = mi.X
+				continue
+			}
+			break
+		}
+		switch x := v.(type) {
+		case *ssa.MakeClosure:
+			if f, ok := x.Fn.(*ssa.Function); ok && f.Parent() == parent {
+				return f
+			}
+		case *ssa.Function:
+			if x.Parent() == parent {
+				return x
+			}
+		}
+		return nil
+	}
+	calleeBase := func(c *ssa.CallCommon) string {
+		name := ""
+		if f := c.StaticCallee(); f != nil {
+			name = f.String()
+		}
+		switch {
+		case strings.HasSuffix(name, "lmdb.Env).Update") || strings.HasSuffix(name, "Update$bound"):
+			return "update"
+		case strings.HasSuffix(name, "lmdb.Env).View") || strings.HasSuffix(name, "View$bound"):
+			return "view"
+		case strings.HasSuffix(name, "slices.SortFunc") || strings.Contains(name, "slices.SortFunc["):
+			return "sort"
+		case strings.Contains(name, "lo.Filter"):
+			return "filter"
+		case strings.HasSuffix(name, "strategy.iterBoth"):
+			return "callback"
+		case strings.HasSuffix(name, "DBI).Map"):
+			return "map"
+		case name == "":
+			return "txn" // dynamic call through a function value (e.g. inTxn)
+		}
+		return ""
+	}
+	for _, b := range parent.Blocks {
+		for _, in := range b.Instrs {
+			switch x := in.(type) {
+			case *ssa.Go:
+				if f := closureOf(x.Call.Value); f != nil {
+					assign(f, "go")
+				}
+			case *ssa.Defer:
+				if f := closureOf(x.Call.Value); f != nil {
+					assign(f, "defer")
+				}
+			case *ssa.Call:
+				base := calleeBase(&x.Call)
+				for _, a := range x.Call.Args {
+					if f := closureOf(a); f != nil && base != "" {
+						assign(f, base)
+					}
+				}
+			case *ssa.Store:
+				if f := closureOf(x.Val); f != nil {
+					if fa, ok := x.Addr.(*ssa.FieldAddr); ok {
+						if pt, ok := fa.X.Type().Underlying().(*types.Pointer); ok {
+							if st, ok := pt.Elem().Underlying().(*types.Struct); ok && fa.Field < st.NumFields() {
+								assign(f, st.Field(fa.Field).Name())
+							}
+						}
+					}
+				}
+			}
+		}
+	}
+	for i, af := range parent.AnonFuncs {
+		if _, ok := roles[af]; !ok {
+			roles[af] = fmt.Sprint(i + 1)
+		}
+	}
+	for f, r := range roles {
+		anonRoleCache[f] = r
+	}
+	return anonRoleCache[fn]
 }
